@@ -126,3 +126,14 @@ func (allocator *Allocator) VerifHibState() (storageNil, gapsNil bool, hibLen, h
 
 // VerifMaxAllocatorSize is the storage length at which malloc refuses to grow.
 func VerifMaxAllocatorSize() uint64 { return negativeLimitNode - 1 }
+
+// VerifHibRaw returns the compressed hibernation buffers as they are (nil when absent).
+func (allocator *Allocator) VerifHibRaw() [7][]byte {
+	var res [7][]byte
+	for i, d := range allocator.hibernatedData {
+		if d != nil {
+			res[i] = append([]byte{}, d...)
+		}
+	}
+	return res
+}
